@@ -30,7 +30,7 @@ import os
 import re
 
 from . import rustsrc
-from .rustsrc import AnchorLost, Unsupported, Source, header_regex, apply_edits, edits_t1, edits_t2, code_mask, match_close
+from .rustsrc import AnchorLost, Unsupported, Source, header_regex, apply_edits, edits_t1, edits_t2, edits_t10, code_mask, match_close
 
 
 class UnitError(Exception):
@@ -388,7 +388,11 @@ def build_item(repo, ext, unit_path):
     text, origin = apply_edits(text, origin, edits_t1(text) if ext.keep_derives is None else edits_t1(text, ext.keep_derives))
     if 'T2' in rules:
         text, origin = apply_edits(text, origin, edits_t2(text))
-    base_text = text           # what the source says after T1/T2
+    t10 = edits_t10(text)
+    if t10:
+        text, origin = apply_edits(text, origin, t10)
+        rules.append('T10')
+    base_text = text           # what the source says after T1/T2/T10
     omitted = []
     code = code_mask(text)
     # T6: method selection inside impl/trait
